@@ -27,4 +27,35 @@ CosLat4(lat) == SinDeg4(90 - Abs(lat))
 SqDist(p, q) == SumN(LAMBDA k : (p[k] - q[k]) * (p[k] - q[k]), 1, Len(p))
 \* d3 = round(10^3 * distance) is consistent with the squared distance sq
 SqrtOK(d3, sq) == (IF d3 >= 2 THEN (d3 - 2) * (d3 - 2) ELSE 0) <= sq * 1000000 /\ sq * 1000000 <= (d3 + 2) * (d3 + 2)
+
+\* ---- general position: the haversine of the great-circle angle, scale 10^8 -------------------------------
+\* hav(theta) = sin^2(theta/2) = sin^2(dlat/2) + cos(lat1) cos(lat2) sin^2(dlon/2)  is a polynomial in sines of
+\* half-degree multiples for integer-degree coordinates (table SinHalfDeg8), and a monotone function of theta
+\* on [0, pi]; the recorded angle is taken through the same function with a sine evaluated from a table at
+\* 10^-3 rad steps and the addition theorem (sin d = d, cos d = 1 - d^2/2 for d < 10^-3: error < 2 10^-10).
+\* All products stay inside 32 bits (limbs of 10^4).  Measured against double precision on 2 10^5 pairs:
+\* HavTrue8 within 4 units, HavAng8 within 6 units of 10^-8 (tools: see DESIGN section 18).
+S8 == 100000000
+Mul8(a, b) == LET a1 == a \div 10000  a0 == a % 10000  b1 == b \div 10000  b0 == b % 10000
+              IN a1 * b1 + (a1 * b0 + a0 * b1 + 5000) \div 10000 + (a0 * b0 + 50000000) \div S8
+Sin8(x8) == LET k == x8 \div 100000  d == x8 % 100000  d2 == Mul8(d, d) \div 2
+            IN Mul8(SinMil8(k), S8 - d2) + Mul8(CosMil8(k), d)
+Pi8 == 314159265
+HavAng8(t8) == LET t == Max2(0, Min2(Pi8, t8))
+                   s == IF t % 2 = 0 THEN Sin8(t \div 2) ELSE (Sin8(t \div 2) + Sin8(t \div 2 + 1)) \div 2
+               IN Mul8(s, s)
+HavTrue8(la1, lo1, la2, lo2) ==
+  LET sp == SinHalfDeg8(Abs(la1 - la2))  sl == SinHalfDeg8(LonDiff(lo1, lo2))
+      c1 == SinHalfDeg8(2 * (90 - Abs(la1)))  c2 == SinHalfDeg8(2 * (90 - Abs(la2)))
+  IN Mul8(sp, sp) + Mul8(Mul8(c1, c2), Mul8(sl, sl))
+\* the recorded angle t8 (10^-8 rad) is within tol8 of the true angle: by monotonicity, exactly when the true
+\* haversine lies between the haversines of t8 -/+ tol8 (slack: the fixed-point error of both sides)
+HavSlack == 15
+AngleWithin(t8, tol8, la1, lo1, la2, lo2) ==
+  LET h == HavTrue8(la1, lo1, la2, lo2)
+  IN HavAng8(t8 - tol8) - HavSlack <= h /\ h <= HavAng8(t8 + tol8) + HavSlack
+\* single-precision accuracy: the error of the angle is that of its cosine (1 - 2 hav), a few float32 ulps:
+\* |hav(recorded) - hav(true)| <= HTol units of 10^-8, i.e. |error| <= 2 HTol 10^-8 / sin(theta) - about
+\* 2^-19 rad at a right angle, 2^-10 rad next to coincident / antipodal pairs
+HavClose(t8, htol, la1, lo1, la2, lo2) == Abs(HavAng8(t8) - HavTrue8(la1, lo1, la2, lo2)) <= htol + HavSlack
 =============================================================================
